@@ -334,6 +334,16 @@ func c15Body(w *W) {
 
 func c15Replay(v *Violation) string {
 	w := &W{Prop: "C15", distinct: map[uint64]struct{}{}, fpSeen: map[string]int{}, cur: &curFile{}}
+	if v.Harness == "C15-serializer-reuse" {
+		var h []serOp
+		if err := json.Unmarshal(v.Case, &h); err != nil {
+			return "cannot decode history"
+		}
+		if what, _ := runSerHistory(c11Tapes(w), nil, h, nil); what != "" {
+			return "FAIL " + what
+		}
+		return "OK"
+	}
 	c := newC15(w)
 	var hist []c15Op
 	if err := json.Unmarshal(v.Case, &hist); err != nil {
